@@ -69,6 +69,9 @@ func init() {
 		{Fn: "AllocPacketID", Lean: "AllocPacketID"},
 		{Fn: "stripEthernetHeader", Lean: "stripEthernetHeader"},
 		{Fn: "ReadAndParse", Lean: "ReadAndParse"},
+		{Fn: "FrameParser.GetICMPInfo", Lean: "GetICMPInfo"},
+		{Fn: "FrameParser.Parse", Lean: "Parse"},
+		{Fn: "FrameParser.getParser", Lean: "getParser"},
 		{Fn: "ParseTCPFirstBytes", Lean: "ParseTCPFirstBytes"},
 		{Fn: "ParseUDPFirstBytes", Lean: "ParseUDPFirstBytes"},
 		{Fn: "FrameParser.IsTTLExceeded", Lean: "IsTTLExceeded"},
